@@ -411,10 +411,10 @@ theorem concurrent_register_delete_linearizable_false : ¬ concurrent_register_d
   | inl h1 => exact absurd (h1 (topicKey [116])) (by decide)
   | inr h2 => exact absurd (h2 (chanKey [116] [99])) (by decide)
 
-/-! ### The repair F18 (one critical section per handler) makes both windows disappear
+/-! ### The repair F21 (one critical section per handler) makes both windows disappear
 
 `registerSecs` / `deleteTopicSecs` / `createChannelSecs` list the critical sections of the three
-handlers, as in the tree (`atomic = false`) and with fixes/F18_lookupd_register_delete_atomic.patch
+handlers, as in the tree (`atomic = false`) and with fixes/F21_lookupd_register_delete_atomic.patch
 (`atomic = true`: `RegistrationDB.RegisterProducer`, `RemoveTopic`, `AddTopicChannel`; tie
 `register_shape`, `admin_topic_shape` accept exactly these two shapes). `interleave` enumerates
 every schedule of two concurrent handler calls. -/
@@ -428,7 +428,7 @@ theorem sections_compose (atomic : Bool) (db : DB) (p : Nat) (t c : Name) (hc : 
     simp [runSecs, registerSecs, deleteTopicSecs, createChannelSecs, registerDB, hc, regStep1, regStep2,
       deleteTopicDB, delTopicStep1, delTopicStep2, createChannelDB, createChanStep1, createChanStep2]
 
-/-- With F18: EVERY schedule of REGISTER ‖ `/topic/delete` ends in the state of one of the two
+/-- With F21: EVERY schedule of REGISTER ‖ `/topic/delete` ends in the state of one of the two
 serial orders (any registry, producer, names — also `topic=*`) … -/
 theorem concurrent_register_delete_linearizable_fixed (db : DB) (p : Nat) (t c : Name) :
     ∀ s ∈ interleave (registerSecs true p t c) (deleteTopicSecs true t),
